@@ -306,9 +306,26 @@ def make_gw(gs):
     return GroundWater(
         water_table="Y",
         method=gs.get("method", "Constant"),
-        dates=list(gs["dates"]),
+        dates=_gw_dates(gs),
         values=list(gs["values"]),
     )
+
+
+def _gw_dates(gs):
+    """The observation dates in the notation the configuration asks for (the canonical 'YYYY/MM/DD' strings stay in the spec)."""
+    style = gs.get("date_style")
+    out = []
+    for d in gs["dates"]:
+        t = parse_date(d)
+        if style == "unpadded":
+            out.append(f"{t.year}/{t.month}/{t.day}")       # 2001/5/9: accepted by pandas and strptime alike
+        elif style == "dashes":
+            out.append(t.strftime("%Y-%m-%d"))
+        elif style == "timestamp":
+            out.append(pd.Timestamp(t))
+        else:
+            out.append(d)
+    return out
 
 
 def make_co2(cs):
